@@ -334,15 +334,20 @@ int main(int argc, char** argv)
                                   "8/2p5/3p4/KP5r/1R3p1k/8/4P1P1/8 w - - 0 1",
                                   "2kr1bnr/pbpq4/2n1pp2/3p3p/3P1P1B/2N2N1Q/PPP3PP/2KR1B1R w - - 0 1",
                                   "r1bqk2r/pp2bppp/2p5/3pP3/P2Q1P2/2N1B3/1PP3PP/R4RK1 b kq - 0 1",
-                                  "k7/8/1r1q1r1q/b1q1n1q1/1Q1N1Q1B/Q1R1Q1R1/8/7K w - - 0 1"};
+                                  "k7/8/1r1q1r1q/b1q1n1q1/1Q1N1Q1B/Q1R1Q1R1/8/7K w - - 0 1",
+                                  // quiescence explosion (a single depth-1 iteration takes minutes): a stop must cut through it
+                                  "q2k2q1/2nqn2b/1n1P1n1b/2rnr2Q/1NQ1QN1Q/3Q3B/2RQR2B/Q2K2Q1 w - - 0 1"};
+    const int NROOTS = 8;
     static const char* GOS[] = {"go infinite", "go depth 30", "go movetime 10000000"};
     std::vector<Scenario> all;
     int id = 0;
     auto add = [&](int point, long arg, bool finite) {
-        for (int r = 0; r < 7; ++r)
+        for (int r = 0; r < NROOTS; ++r)
             for (int g = 0; g < 3; ++g)
             {
                 if ((r + g + point + arg) % 3 != 0 && point == verif::NODE && arg > 8) continue;  // thin the big NODE family out
+                if (finite && r == NROOTS - 1) continue;
+                if (r == NROOTS - 1 && ((point == verif::ITER_BEGIN && arg > 1) || point == verif::ITER_END)) continue;  // never reached there
                 Scenario s;
                 s.fen = ROOTS[r];
                 s.go = finite ? (g == 0 ? "go depth 2" : g == 1 ? "go depth 3" : "go nodes 3000") : GOS[g];
